@@ -73,7 +73,9 @@ fn tree_step(with_child: bool, tag: bool) {
     let before = count_nodes(&root);
     let took = root.enclose_deep_first(&probe);
     let after = count_nodes(&root);
-    kani::cover!(took && in_inner && with_child, "probe lands in the inner box");
+    if with_child {
+        kani::cover!(took && in_inner, "probe lands in the inner box");
+    }
     kani::cover!(took && in_outer_only, "probe lands in the outer box only");
     kani::cover!(!took, "probe lies outside");
     if outside {
